@@ -140,18 +140,28 @@ Fixpoint nodup_b (l : list Z) : bool :=
 (* the outcome of the model: the set of identities returned, or [-1; 940] for TypeError (940 = sum of the character
    codes of "TypeError", the harness's encoding of an exception) *)
 Definition model_out (c : mcase) : sx :=
-  if run_raises (case_cmodel c) (case_world c) (c_T c) (c_pat c) (c_dom c) then SL [SZ (-1); SZ 940]
+  if run_araises (case_cmodel c) (case_world c) (c_T c) (c_pat c) (c_dom c) then SL [SZ (-1); SZ 1470]   (* AttributeError *)
+  else if run_raises (case_cmodel c) (case_world c) (c_T c) (c_pat c) (c_dom c) then SL [SZ (-1); SZ 940]
   else zset (run (case_cmodel c) (case_world c) (c_T c) (c_pat c) (c_dom c)).
 (* objects that are not listed have class 0, which must not be related to any class *)
+(* no attribute value is None (object 0), no collection holds it, it is not in the domain *)
+Definition nonone_v (v : val) : bool :=
+  match v with VO o => negb (Z.eqb o 0) | VLO xs => negb (existsb (Z.eqb 0) xs) | _ => true end.
+Definition nonone_b (c : mcase) : bool :=
+  forallb (fun row : Z * Z * list (nat * val) => forallb (fun av : nat * val => nonone_v (snd av)) (snd row)) (c_world c)
+  && negb (existsb (Z.eqb 0) (c_dom c)).
+Definition no_none (M : mworld) (dom : list Z) : Prop :=
+  (forall o a, nonone_v (attr (mw M) o a) = true) /\ ~ In 0%Z dom.
 Definition class0_b (c : mcase) : bool := forallb (fun p : nat * nat => negb (Nat.eqb (fst p) 0)) (c_sub c).
 Definition in_F (c : mcase) : bool :=
-  F11 (case_cmodel c) (case_objcls c) (c_T c) (c_pat c) && sub_trans_b c && typed_b c && class0_b c.
+  F11 (case_cmodel c) (case_objcls c) (c_T c) (c_pat c) && sub_trans_b c && typed_b c && class0_b c && nonone_b c.
 Definition model_rows_out (c : mcase) : sx :=
-  if run_raises (case_cmodel c) (case_world c) (c_T c) (c_pat c) (c_dom c) then SL [SZ (-1); SZ 940]
+  if run_araises (case_cmodel c) (case_world c) (c_T c) (c_pat c) (c_dom c) then SL [SZ (-1); SZ 1470]
+  else if run_raises (case_cmodel c) (case_world c) (c_T c) (c_pat c) (c_dom c) then SL [SZ (-1); SZ 940]
   else rows_set (run_rows (case_cmodel c) (case_world c) (c_rootsel c) (c_T c) (c_pat c) (c_dom c)).
 Definition lax_out (c : mcase) : sx := zset (lax_run (case_cmodel c) (case_world c) (c_T c) (c_pat c) (c_dom c)).
 Definition in_Flax (c : mcase) : bool :=
-  F11lax (case_cmodel c) (case_objcls c) (c_T c) (c_pat c) && sub_trans_b c && typed_b c && class0_b c.
+  F11lax (case_cmodel c) (case_objcls c) (c_T c) (c_pat c) && sub_trans_b c && typed_b c && class0_b c && nonone_b c.
 (* what the harness asks for per case: model answer, Spec answer, inside F11?, number of conditions emitted *)
 Definition case_out (c : mcase) : sx :=
   SL [model_out c; spec_out c; SB (in_F c); SN (length (tr_alist (case_cmodel c) (c_T c) PRoot (c_pat c)));
